@@ -10,14 +10,14 @@ import (
 // VerifC05Nested: an annotated message has the same JSON form as a nested field and as a
 // list element of an unannotated parent as it has at the top level (server response path).
 func VerifC05Nested() {
-	h := &Holder{Id: verif.String("id", 2)}
+	h := &Holder{Id: verif.String("id", verif.L(2))}
 	if verif.Bool("one.present") {
-		h.One = &Int64Msg{Big: verif.Int64("one.big"), Name: verif.String("one.name", 2)}
+		h.One = &Int64Msg{Big: verif.Int64("one.big"), Name: verif.String("one.name", verif.L(2))}
 	}
 	if verif.Bool("many.present") {
-		n := &NullableMsg{Id: verif.String("many.id", 2)}
+		n := &NullableMsg{Id: verif.String("many.id", verif.L(2))}
 		if verif.Bool("many.nick.set") {
-			s := verif.String("many.nick", 2)
+			s := verif.String("many.nick", verif.L(2))
 			n.NickName = &s
 		}
 		h.Many = []*NullableMsg{n}
@@ -50,7 +50,7 @@ func VerifC05Nested() {
 // an absent header, a parameterised or differently-cased JSON type, and unrecognised types
 // (which the server answers in JSON).
 func VerifC05ResponsePath() {
-	m := &Int64Msg{Big: verif.Int64("big"), Name: verif.String("name", 2), Plain: verif.Int64("plain")}
+	m := &Int64Msg{Big: verif.Int64("big"), Name: verif.String("name", verif.L(2)), Plain: verif.Int64("plain")}
 	hdr := http.Header{}
 	switch verif.Choice("contentType", 6) {
 	case 0:
